@@ -144,7 +144,9 @@ impl MemcStore {
                             value -= delta.delta;
                         }
                         record.value = Bytes::from(value.to_string());
+                        let flags = record.header.flags;
                         record.header = header;
+                        record.header.flags = flags;
                         self.set(key, record).map(|result| DeltaResult {
                             cas: result.cas,
                             value,
